@@ -21,6 +21,7 @@ func init() {
 	register("C09", "Clause decided: malformed string keys cannot cause an index-out-of-range panic in the calendar shards: every slice expression on the key string (and on time.Format output) in DateYearShard.getNumYear, DateMonthShard.getNumYearMonth and DateDayShard.getNumYearMonthDay is proven in bounds from dominating length tests (BD-C09), and the three sibling parsers all guard their string case. Interval/period arithmetic, equal placement of the accepted spellings and time zones are not covered.",
 		ruleC09)
 	propArch386["C12"] = true
+	register("C33", "", ruleC33bd)
 }
 
 type atomKey struct {
@@ -759,6 +760,40 @@ func ruleC09(c *Ctx, r *Report) {
 				r.ok(rule, name, ob.label, c.Pos(ob.in.Pos()), "slice of the key string is within its length on every path")
 			} else {
 				r.viol(rule, name, ob.label, c.Pos(ob.in.Pos()), "slice expression on the key string is not guarded by a length test ("+strings.Join(failed, ", ")+"): a short malformed key panics instead of being rejected with an error")
+			}
+		}
+	}
+}
+
+// ruleC33bd: "decrypting malformed data ... fails or yields data without crashing": the index and slice expressions of
+// the ECB decrypt path in util/crypto are proven in bounds for every ciphertext (the block loop of cryptBlocks needs
+// divisibility reasoning the prover does not have; it is listed as not covered).
+func ruleC33bd(c *Ctx, r *Report) {
+	const rule = "BD-C33"
+	r.floor(rule, 2)
+	for _, n := range []string{"DecryptECB", "pkcs5UnPadding"} {
+		f := c.Func("util/crypto", n)
+		if f == nil {
+			r.undecided(rule, "util/crypto."+n, "anchor", "-", "function not found")
+			continue
+		}
+		name := c.FuncName(f)
+		p := c.newProver(f, nil)
+		obs := p.obligations()
+		if len(obs) == 0 {
+			r.ok(rule, name, "no-indexing", c.Pos(f.Pos()), "the function contains no index, slice or make expression of its own")
+		}
+		for _, ob := range obs {
+			var failed []string
+			for i, g := range ob.goals {
+				if !p.prove(g, ob.in) {
+					failed = append(failed, ob.names[i]+"  [cannot derive "+p.linString(g)+" >= 0]")
+				}
+			}
+			if len(failed) == 0 {
+				r.ok(rule, name, ob.label, c.Pos(ob.in.Pos()), "in bounds for every ciphertext (derived from the dominating comparisons)")
+			} else {
+				r.viol(rule, name, ob.label, c.Pos(ob.in.Pos()), "not provably in bounds for all ciphertexts: "+strings.Join(failed, "; ")+" — malformed stored data can crash the loader instead of failing the load")
 			}
 		}
 	}
